@@ -100,11 +100,12 @@ class C16(Machine):
                 continue
             mats.append(gen.sequences(rng, labs, nchar, syms, easy=rng.choice([0.5, 0.8, 0.95])))
         steps = []
-        ops = ["score", "score", "score", "score", "down_pass_attr", "down_pass_noattr", "rotate", "reroot", "reroot_node", "score_fresh"]
+        ops = ["score", "score", "score", "score", "down_pass_attr", "down_pass_noattr", "rotate", "reroot", "reroot_node", "score_fresh", "edit_cell"]
         for _ in range(rng.randint(3, 50 if tier == "thorough" else 20)):
             steps.append({"op": rng.choice(ops), "m": rng.randrange(10), "gaps": rng.random() < 0.6,
                           "weights": [rng.randint(0, 3) for _ in range(6)] if rng.random() < 0.3 else None,
-                          "bychar": rng.random() < 0.5, "k": rng.randrange(1000), "attr": rng.choice(["state_sets", "ss2"])})
+                          "bychar": rng.random() < 0.5, "k": rng.randrange(1000), "attr": rng.choice(["state_sets", "ss2"]),
+                          "k2": rng.randrange(1000), "sym": rng.randrange(1000), "how": rng.randrange(3)})
         # "unrooted": the same binary tree drawn the way DendroPy holds unrooted trees, with a trifurcation at the seed node
         return {"config": {"data_type": dt, "labels": labs, "unrooted": rng.random() < 0.35 and n >= 3},
                 "initial": {"tree": spec, "matrices": mats}, "steps": steps}
@@ -118,7 +119,8 @@ class C16(Machine):
             tree.is_rooted = False
             tree.collapse_basal_bifurcation(set_as_unrooted_tree=True)
         cls = dendropy.DnaCharacterMatrix if dt == "dna" else dendropy.StandardCharacterMatrix
-        rows_list = plan["initial"]["matrices"]
+        # (the matrices are long-lived too and may be edited in place: the model rows are copies of the plan's)
+        rows_list = [dict((l, list(v)) for l, v in r.items()) for r in plan["initial"]["matrices"]]
         if dt == "standard_multi":
             mats = []
             for r in rows_list:
@@ -168,6 +170,25 @@ class C16(Machine):
                             rec.violation("PER_CHARACTER_WRONG", {"op": op},
                                           "per-character scores %s, expected %s (total %s)" % (bychar, ref, got))
                             raise StopRun()
+                elif op == "edit_cell":
+                    # the matrix passed in later is the matrix as it is then: one cell replaced in place
+                    lab = cfg["labels"][st["k"] % len(cfg["labels"])]
+                    c = st["k2"] % nchar
+                    pool = "ACGT-?NRY" if dt == "dna" else "012-?"
+                    sym = pool[st["sym"] % len(pool)]
+                    seq = mats[j][ns.get_taxon(lab)]
+                    state = mats[j].default_state_alphabet[sym]
+                    if st["how"] == 0:
+                        seq[c] = state
+                    elif st["how"] == 1:
+                        seq.set_at(c, state)
+                    else:
+                        vals = list(seq.values())
+                        vals[c] = state
+                        mats[j][ns.get_taxon(lab)] = vals
+                    rows[lab][c] = sym
+                    rec.ev("edit_cell", j, lab, c, sym)
+                    rec.probe("cell_edited_in_place")
                 elif op == "rotate":
                     internal = [nd for nd in rawtree.raw_nodes(tree) if len(nd._child_nodes) > 1]
                     nd = internal[st["k"] % len(internal)]
